@@ -1,6 +1,7 @@
 package main
 
 import (
+	"encoding/json"
 	"fmt"
 	"sort"
 	"strings"
@@ -475,7 +476,51 @@ func (m *Monitors) OnDeleteRange(node int, min, max uint64, removed []*raft.Log)
 
 func (m *Monitors) OnStableSet(node int, key string, val []byte) {}
 
-func (m *Monitors) OnSnapshotDurable(node int, meta raft.SnapshotMeta, data []byte) {}
+// OnSnapshotDurable: C11 - a snapshot's index, term, configuration and content are those of the committed history at its index.
+func (m *Monitors) OnSnapshotDurable(node int, meta raft.SnapshotMeta, data []byte) {
+	var content []Applied
+	user := false
+	if len(data) > 0 {
+		if err := json.Unmarshal(data, &content); err != nil {
+			user = true // a user-supplied snapshot (C20)
+		}
+	}
+	if f, ok := m.agreed[meta.Index]; ok && !user && f.e.Term != meta.Term {
+		m.fail("C11", "snapshot-term-wrong", "n%d snapshot at index %d stamped with term %d, the committed entry there has term %d", node, meta.Index, meta.Term, f.e.Term)
+	}
+	if !user {
+		have := map[uint64]bool{}
+		for _, a := range content {
+			have[a.Index] = true
+			if a.Index > meta.Index {
+				m.fail("C11", "snapshot-content-beyond-index", "n%d snapshot stamped with index %d contains entry %v", node, meta.Index, a)
+			}
+			if f, ok := m.agreed[a.Index]; ok && f.e != a {
+				m.fail("C11", "snapshot-content-wrong", "n%d snapshot at %d contains %v, committed history has %v", node, meta.Index, a, f.e)
+			}
+		}
+		for i := uint64(1); i <= meta.Index; i++ {
+			if f, ok := m.agreed[i]; ok && m.fsmSees(raft.LogType(f.e.Type)) && !have[i] {
+				m.fail("C11", "snapshot-content-missing", "n%d snapshot stamped with index %d lacks committed entry %v", node, meta.Index, f.e)
+				break
+			}
+		}
+	}
+	// configuration: the newest configuration entry of the committed history at or below the snapshot index
+	var cfgIdx uint64
+	var cfg raft.Configuration
+	for i, f := range m.agreed {
+		if f.e.Type == uint8(raft.LogConfiguration) && i <= meta.Index && i > cfgIdx {
+			cfgIdx = i
+			cfg = raft.DecodeConfiguration([]byte(f.e.Data))
+		}
+	}
+	if cfgIdx > 0 && !user {
+		if meta.ConfigurationIndex != cfgIdx || fmt.Sprint(meta.Configuration.Servers) != fmt.Sprint(cfg.Servers) {
+			m.fail("C11", "snapshot-configuration-wrong", "n%d snapshot at index %d carries configuration %v@%d, the committed history at that index has %v@%d", node, meta.Index, meta.Configuration.Servers, meta.ConfigurationIndex, cfg.Servers, cfgIdx)
+		}
+	}
+}
 
 // ---------------------------------------------------------------------------
 // FSM
@@ -885,6 +930,18 @@ func (m *Monitors) AtEnd() {
 			// stuck for ever: nothing at all is enabled any more, or the server was shut down and none of its threads is left
 			n := w.nodes[c.Node]
 			serverGone := n.up && n.inc == c.Inc && n.r != nil && n.r.State() == raft.Shutdown && len(w.sched.Live(func(g int) bool { return g == n.group() })) == 0
+			longAgo := w.sc.Liveness && n.up && n.inc == c.Inc && w.events-c.InvokeEv >= 300 && w.now()-c.InvokeNow >= 5*tElection
+			if longAgo && !(w.endWhy == "quiescent" || serverGone) {
+				site := "?"
+				if c.Thread != nil {
+					site = c.Thread.What
+					if i := strings.Index(site, "#"); i > 0 {
+						site = site[:i]
+					}
+				}
+				m.fail("C17", "unresolved:"+c.Kind+"@"+site, "call%d %s on n%d was issued at %v (event %d) and is still unresolved at %v (event %d) although the server runs", c.ID, c.Kind, c.Node, c.InvokeNow, c.InvokeEv, w.now(), w.events)
+				continue
+			}
 			if w.endWhy == "quiescent" || serverGone {
 				site := "?"
 				if c.Thread != nil {
